@@ -216,6 +216,35 @@ pub fn corr(ctx: &mut Ctx) {
         let v: Vec<usize> = (0..40).map(|_| u.sample(&mut r)).collect();
         ctx.line(&format!("dens chacha {} {} 40", seed, m), &join(&v));
     }
+    // EVERY small sketch size (number-theoretic accidents of a probing scheme - a stride sharing a factor with m - live at
+    // particular sizes) with 1..4 items, and a few larger composite / prime sizes: finishing must succeed, keep populated bins, copy
+    // only populated bins, be reproducible and not depend on the order of the items. Implementation only.
+    let mut sweep: Vec<usize> = (1..=40).collect();
+    sweep.extend_from_slice(&[45, 50, 63, 65, 100, 127, 128, 139, 199, 200, 255, 256, 278, 398, 695, 1000, 1390]);
+    if !ctx.quick() { sweep.extend_from_slice(&[995, 1990, 4170, 5970, 10_007, 27_661]); }
+    for m in sweep {
+        for kind in 0..4 {
+            for n in [1usize, 2, 3, 4, 1 + m / 7] {
+                let mut rng = ctx.rng.fork();
+                let items = gen_stream(&mut rng, n);
+                ctx.begin_case(&format!("dens size sweep kind={} m={} n={}", kind, m, n));
+                ctx.count("size sweep (every m up to 40, composites, 1..4 items)");
+                let its = items.clone();
+                let a = catch(std::panic::AssertUnwindSafe(move || { let mut d = D::new(kind, m); let ok = d.sketch_slice(&its); (ok, d.parts()) }));
+                let mut rev = items.clone(); rev.reverse();
+                let b = catch(std::panic::AssertUnwindSafe(move || { let mut d = D::new(kind, m); for x in &rev { d.sketch(x); } d.end_sketch(); (true, d.parts()) }));
+                let hashes: std::collections::HashSet<u64> = items.iter().map(|x| hash_with::<FnvHasher, u64>(x)).collect();
+                let good = match (&a, &b) {
+                    (Ok((true, pa)), Ok((true, pb))) => pa == pb && pa.2 == 0 && pa.0.iter().all(|h| hashes.contains(h)) && pa.1.iter().all(|i| *i),
+                    _ => false,
+                };
+                if !good {
+                    ctx.oracle_failure(serde_json::json!({"kind":"impl_violates_property","what":"finishing a densified sketch of a non-empty stream failed / is not reproducible across orders / left a bin without the hash of a streamed item",
+                        "kind_index":kind,"m":m,"n":n,"items":items,"slice": format!("{:?}", a.as_ref().map(|x| x.0)), "itemwise_reversed": format!("{:?}", b.as_ref().map(|x| x.0))}));
+                }
+            }
+        }
+    }
     let ms: Vec<usize> = if ctx.quick() { vec![1, 2, 3, 7, 16, 64, 257] } else { vec![1, 2, 3, 7, 16, 64, 257, 1024, 4096] };
     let ncases = ctx.n(80, 1000);
     for c in 0..ncases {
